@@ -269,6 +269,65 @@ def m_strip_prefix(I, st, a):
     return SEnum("Option", z3.If(has, z3.BitVecVal(1, 64), z3.BitVecVal(0, 64)), {1: {0: SStr(rest)}})
 
 
+_fresh_ctr = [0]
+
+
+def _fresh_str(tag):
+    _fresh_ctr[0] += 1
+    return z3.String(f"{tag}!{_fresh_ctr[0]}")
+
+
+def m_starts_with(I, st, a):
+    s, p = [deref(I, st, v) for v in a]
+    return SBool(z3.PrefixOf(zstr(p), zstr(s)))
+
+
+def m_ends_with(I, st, a):
+    s, p = [deref(I, st, v) for v in a]
+    return SBool(z3.SuffixOf(zstr(p), zstr(s)))
+
+
+def m_str_contains(I, st, a):
+    s, p = [deref(I, st, v) for v in a]
+    return SBool(z3.Contains(zstr(s), zstr(p)))
+
+
+def m_strip_suffix(I, st, a):
+    s, p = [deref(I, st, v) for v in a]
+    zs, zp = zstr(s), zstr(p)
+    has = z3.SuffixOf(zp, zs)
+    rest = z3.SubString(zs, 0, z3.Length(zs) - z3.Length(zp))
+    return SEnum("Option", z3.If(has, z3.BitVecVal(1, 64), z3.BitVecVal(0, 64)), {1: {0: SStr(rest)}})
+
+
+def m_trim_start_matches(I, st, a):
+    """s = p^k ++ r with r not starting with p (p a non-empty string pattern); r is a fresh string tied to s by the path condition"""
+    s, p = [deref(I, st, v) for v in a]
+    if not (isinstance(p, SStr) and isinstance(p.v, str) and p.v):
+        raise Inconclusive(f"trim_start_matches with pattern {p}")
+    zs, zp = zstr(s), zstr(p)
+    pre, r = _fresh_str("trimmed_prefix"), _fresh_str("trim_rest")
+    cond = z3.And(zs == z3.Concat(pre, r), z3.InRe(pre, z3.Star(z3.Re(zp))), z3.Not(z3.PrefixOf(zp, r)))
+    return [(cond, SStr(r))]
+
+
+def m_trim_end_matches(I, st, a):
+    s, p = [deref(I, st, v) for v in a]
+    if not (isinstance(p, SStr) and isinstance(p.v, str) and p.v):
+        raise Inconclusive(f"trim_end_matches with pattern {p}")
+    zs, zp = zstr(s), zstr(p)
+    r, suf = _fresh_str("trim_rest"), _fresh_str("trimmed_suffix")
+    cond = z3.And(zs == z3.Concat(r, suf), z3.InRe(suf, z3.Star(z3.Re(zp))), z3.Not(z3.SuffixOf(zp, r)))
+    return [(cond, SStr(r))]
+
+
+def m_str_is_empty(I, st, a):
+    s = deref(I, st, a[0])
+    if isinstance(s, SStr):
+        return SBool(z3.Length(zstr(s)) == 0)
+    raise Inconclusive(f"is_empty of {s}")
+
+
 def m_to_string(I, st, a):
     v = deref(I, st, a[0])
     if isinstance(v, SInt):
@@ -414,6 +473,13 @@ TABLE = [
     (r"^alloc::fmt::format$|^std::fmt::format$|^format$", m_opaque_untainted("string")),
     (r"^Box::<.*>::new$", m_identity),
     (r"^core::str::<impl str>::strip_prefix", m_strip_prefix),
+    (r"^core::str::<impl str>::strip_suffix", m_strip_suffix),
+    (r"^core::str::<impl str>::starts_with", m_starts_with),
+    (r"^core::str::<impl str>::ends_with", m_ends_with),
+    (r"^core::str::<impl str>::contains", m_str_contains),
+    (r"^core::str::<impl str>::trim_start_matches", m_trim_start_matches),
+    (r"^core::str::<impl str>::trim_end_matches", m_trim_end_matches),
+    (r"^core::str::<impl str>::is_empty$", m_str_is_empty),
     (r"^(std|core)::option::Option::<.*>::unwrap_or_default$", m_unwrap_or_default),
 ]
 _COMPILED = [(re.compile(p), f) for p, f in TABLE]
